@@ -115,6 +115,19 @@ func init() {
 			}},
 		Rule{ID: "C10.i", Explain: "aliasing discipline: verifying leaves update messages, events and accumulators unchanged - no function mutates in place a big.Int it reached through revocation.Update / revocation.Event / revocation.EventList / revocation.SignedAccumulator / revocation.Accumulator (math/big mutators write their receiver), except the tabled merge/refresh functions.",
 			Run: func(P *Program, R *Report) { inPlaceDisciplineRule(P, R, "C10.i", "revocation.Update", "revocation.Event", "revocation.EventList", "revocation.SignedAccumulator", "revocation.Accumulator") }},
+		Rule{ID: "C10.j", Explain: "no unauthenticated message changes or is acknowledged by a witness: Witness.Update returns nil only after update.Verify(pk) returned nil - on every path, also those that leave U untouched (same index, no events, older update).",
+			Run: func(P *Program, R *Report) {
+				fn := mustFunc(P, R, "C10.j", "revocation.(*Witness).Update")
+				if fn == nil {
+					return
+				}
+				mp(P, R, "C10.j", "revocation.(*Witness).Update:verified-on-every-path", "nil => update.Verify(pk) returned nil", fn, AcceptNilErr(0), &MustPass{Match: func(a Atom) bool {
+					c, idx := callAndResult(a.V)
+					return c != nil && calleeIs(c, "revocation.(*Update).Verify") && idx == 1 && a.Want == Nil && desc(c.Call.Args[0]) == "<revocation.Update>" && desc(c.Call.Args[1]) == pkD
+				}})
+			}},
+		Rule{ID: "C10.k", Explain: "the product computed while an event list is decoded is the product of all decoded events: fresh big.NewInt(1) times E of every index from 0.",
+			Run: func(P *Program, R *Report) { decodedProductRule(P, R, "C10.k") }},
 		Rule{ID: "C10.g", Explain: "the verified memo of an event list is set only by Verify after all tests, by uncompress (which recomputes indices and parent hashes) and by FlattenEventLists; uncompress derives Index and ParentHash of every event after the first from its predecessor.",
 			Run: func(P *Program, R *Report) { verifiedMemoRule(P, R) }},
 	)
@@ -438,4 +451,76 @@ func hashEqualsCall(P *Program, a Atom) (*ssa.Call, bool) {
 		return c, true
 	}
 	return nil, false
+}
+
+// decodedProductRule: the product an event list computes while it is decoded (ComputeProduct) is the product of ALL
+// decoded events' E, accumulated into a fresh integer: it starts as a fresh big.NewInt(1), and the multiplication by
+// E of event i sits in a loop that runs over every index from 0. (Flatten/Prepend turn this value into the Update's
+// cached product, which Witness.Update uses for the gcd and Bezout step.)
+func decodedProductRule(P *Program, R *Report, rule string) {
+	fn := mustFunc(P, R, rule, kELUncomp)
+	if fn == nil {
+		return
+	}
+	prodD := elD + ".product"
+	okInit, nInit := true, 0
+	for _, st := range receiverStores(fn) {
+		if desc(st.Addr) != prodD {
+			continue
+		}
+		nInit++
+		c, isCall := st.Val.(*ssa.Call)
+		one := false
+		if isCall && isCallTo(c, "big.NewInt") {
+			if k, ok := constInt(c.Call.Args[0]); ok && k == 1 {
+				one = true
+			}
+		}
+		if !one {
+			okInit = false
+		}
+	}
+	R.decide(rule, kELUncomp+":product-init", "the product starts as a fresh big.NewInt(1) (not as one of the decoded integers)", okInit && nInit >= 1, fmt.Sprintf("%d initialisations", nInit), P.Pos(fn.Pos()))
+	okMul := false
+	detail := "no multiplication of the product by the event's E found"
+	deepVisit(P, fn, 1, func(g *ssa.Function) {
+		for _, ci := range callsIn(g) {
+			c, isCall := ci.(*ssa.Call)
+			if !isCall || bigMethod(c) != "Mul" || desc(c.Call.Args[0]) != prodD || desc(c.Call.Args[1]) != prodD {
+				continue
+			}
+			fd := desc(c.Call.Args[2])
+			if !(strings.HasSuffix(fd, ".E[#i]") || strings.HasSuffix(fd, ".Events[#i].E") || fd == "new:revocation.Event.E") {
+				detail = "multiplied by " + fd
+				continue
+			}
+			l := innermostLoopOf(c.Block())
+			if l == nil {
+				detail = "the multiplication is not inside the decoding loop"
+				continue
+			}
+			// the loop's index starts at 0
+			start := false
+			for _, ins := range l.Header.Instrs {
+				phi, isPhi := ins.(*ssa.Phi)
+				if !isPhi || !isIntegerType(phi.Type()) {
+					continue
+				}
+				for k, e := range phi.Edges {
+					if l.Body[phi.Block().Preds[k]] {
+						continue // back edge
+					}
+					if v, ok := constInt(e); ok && (v == 0 || (v == -1 && phi.Comment == "rangeindex")) {
+						start = true
+					}
+				}
+			}
+			if !start {
+				detail = "the loop that multiplies does not start at the first event"
+				continue
+			}
+			okMul = true
+		}
+	})
+	R.decide(rule, kELUncomp+":product-all", "every decoded event's E is multiplied into the product (loop over all indices from 0)", okMul, detail, P.Pos(fn.Pos()))
 }
